@@ -79,15 +79,22 @@ Example c13_content_hyp_sat :
        o_decodeErrors := 0; o_end := Ok tt |}.
 Proof. exact valid_plays. Qed.
 
-(* The proposed repair (findings/C13-*.json: drop init tracks codecs.FromFMP4 does not know, reject
-   time scale 0) makes the FULL statement true: for the model of the repaired code no hypothesis
-   on the media content is left - every codec tag incl. a nil Codec, empty inits, any time
-   scale. Only the playlist's structural guarantee remains. (The pinned tree is [client_run];
-   Tie.repo_repaired says which of the two the correspondence run compares with /repo.) *)
-Theorem c13_content_no_panic_after_repair : forall sc el,
-  structural_ok (sc_primary sc) = true -> is_panic (o_end (client_run_fixed sc el)) = false.
-Proof. exact client_run_fixed_np. Qed.
+(* The proposed repair of findings 1 and 2 (findings/C13-*.json: drop init tracks codecs.FromFMP4
+   does not know, reject time scale 0) makes the FULL statement true: for the model of every tree
+   that contains it no hypothesis on the media content is left - every codec tag incl. a nil
+   Codec, empty inits, any time scale. Only the playlist's structural guarantee remains. (The
+   pinned tree is [client_run] = [client_run_gen no_repairs]; Tie.repo_repairs says which tree
+   the correspondence run compares with /repo.) *)
+Theorem c13_content_no_panic_after_repair : forall rp sc el,
+  rep_tracks rp = true -> structural_ok (sc_primary sc) = true ->
+  is_panic (o_end (client_run_gen rp sc el)) = false.
+Proof. exact client_run_repaired_np. Qed.
 Print Assumptions c13_content_no_panic_after_repair.
+
+Example c13_repair_of_wedge :
+  client_run_fixed (many_parts 12) 0 =
+    {| o_tracks := Some [Some GH264]; o_counts := [[12%nat]]; o_decodeErrors := 0; o_end := Ok tt |}.
+Proof. exact repaired_many_parts. Qed.
 
 Example c13_repair_on_witnesses :
   client_run_fixed witness_unsupported_codec 0 = fail_outcome (Err ENoSupportedTracks) /\
@@ -105,6 +112,19 @@ Example c13_needs_parser_guarantees :
   o_end (client_run (one_stream [{| it_id := 1; it_timescale := 90000; it_codec := FNil |}] [1]) 0) = Panic PNilDeref.
 Proof. exact needs_parser_guarantees. Qed.
 
+(* A third finding, not a panic but a wedge: a VALID stream (one supported track) with twelve
+   parts in one segment blocks the fMP4 stream processor until Close (EBlocked: neither EOS nor
+   an error from Wait); see Model jstate. Eleven parts play to the end. *)
+Theorem c13_wedge_on_valid_content : exists sc el,
+  mc_wf sc = true /\ all_supported sc = true /\ o_end (client_run sc el) = Err EBlocked.
+Proof. exact wedge_witness. Qed.
+Print Assumptions c13_wedge_on_valid_content.
+
+Example c13_eleven_parts_play :
+  client_run (many_parts 11) 0 =
+    {| o_tracks := Some [Some GH264]; o_counts := [[11%nat]]; o_decodeErrors := 0; o_end := Ok tt |}.
+Proof. exact eleven_parts_play. Qed.
+
 (* Schedule independence: a panic is local to one operation of one goroutine. For ALL arguments
    (any entry, any time-conversion state with non-zero divisors, any elapsed time) the
    operations of a track processor and of the stream processor's push path do not panic. *)
@@ -113,9 +133,9 @@ Theorem c13_op_track_processor : forall tp el dts ntp samples,
 Proof. exact process_np. Qed.
 Print Assumptions c13_op_track_processor.
 
-Theorem c13_op_stream_processor : forall procs tc el parts counts,
+Theorem c13_op_stream_processor : forall rep procs tc el parts counts js,
   procs_ok procs -> tconv_ok tc ->
-  is_panic (parts_loop procs (Some (CFmp4 tc)) el parts counts) = false.
+  is_panic (parts_loop rep procs (Some (CFmp4 tc)) el parts counts js) = false.
 Proof. exact parts_loop_np. Qed.
 Print Assumptions c13_op_stream_processor.
 
@@ -134,8 +154,8 @@ Theorem c13_no_busy_loop : forall sc el, is_oof (o_end (client_run sc el)) = fal
 Proof. exact client_run_noof. Qed.
 Print Assumptions c13_no_busy_loop.
 
-Theorem c13_no_busy_loop_any_tree : forall repaired sc el,
-  is_oof (o_end (client_run_gen repaired sc el)) = false.
+Theorem c13_no_busy_loop_any_tree : forall rp sc el,
+  is_oof (o_end (client_run_gen rp sc el)) = false.
 Proof. exact client_run_gen_noof. Qed.
 Print Assumptions c13_no_busy_loop_any_tree.
 
